@@ -52,7 +52,7 @@ Record cfg := mkCfg {
   c_bbs   : list bb;
   c_entry : nat;
   c_exit  : nat;
-  c_ret   : list Z          (* hugr types of type_to_row(cfg.output_ty) *)
+  c_ret   : list (Z * bool) (* type_to_row(cfg.output_ty): (hugr type, droppable) *)
 }.
 
 Definition dummy_bb : bb := mkBB [] [] [].
@@ -80,13 +80,11 @@ Fixpoint starts_with (p s : list Z) : bool :=
   end.
 Definition is_return_var (name : list Z) : bool := starts_with ret_prefix name.
 
-(* Variable(return_var(i), ty, None): droppable comes with the type; the harness supplies it.
-   c_ret only carries hugr type ids, droppability of return values is irrelevant for exit
-   rows (they are never sorted), so the model fixes v_drop := true for them. *)
-Fixpoint return_vars_from (i : Z) (tys : list Z) : row :=
+(* Variable(return_var(i), ty, None) for i, ty in enumerate(type_to_row(cfg.output_ty)) *)
+Fixpoint return_vars_from (i : Z) (tys : list (Z * bool)) : row :=
   match tys with
   | [] => []
-  | t :: ts => mkVar (return_var_name i) true t :: return_vars_from (i + 1) ts
+  | t :: ts => mkVar (return_var_name i) (snd t) (fst t) :: return_vars_from (i + 1) ts
   end.
 Definition return_vars (c : cfg) : row := return_vars_from 0 (c_ret c).
 
